@@ -59,6 +59,12 @@ func VerifC04Entry() {
 	v.ScopeShared("v")
 	report, err, panicked := verifCall(ep, compiled, "<<data text>>")
 	decodeErr, flattenErr := v.Flag("v.decode.err"), v.Flag("v.flatten.err")
+	// text after a first JSON value (a YAML source that starts with a JSON value, a second document):
+	// the text is not a JSON document either
+	if v.Flag("v.decode.trailing") {
+		decodeErr = true
+		v.Reach("trailing-text")
+	}
 	if decodeErr {
 		v.Reach("decode-failed")
 	}
@@ -89,6 +95,8 @@ func VerifC04Entry() {
 
 func verifWitnessData(decodeErr, flattenErr bool) string {
 	switch {
+	case v.ReplayBool("flag:v.decode.trailing"):
+		return "\"openapi\": \"3.0.0\"\n\"info\":\n  \"title\": \"not json\"\n"
 	case decodeErr:
 		// the decoder model also says whether More() saw anything: "no" is an empty / blank text
 		if _, asked := v.ReplayInput("v.decode.more"); asked && v.ReplayInt("v.decode.more") == 0 {
@@ -105,7 +113,7 @@ func verifWitnessData(decodeErr, flattenErr bool) string {
 // entry points with real (witness) data texts.
 func VerifC04EntryNative() {
 	ep := v.ReplayInt("entry")
-	decodeErr, flattenErr := v.ReplayBool("flag:v.decode.err"), v.ReplayBool("flag:v.flatten.err")
+	decodeErr, flattenErr := v.ReplayBool("flag:v.decode.err") || v.ReplayBool("flag:v.decode.trailing"), v.ReplayBool("flag:v.flatten.err")
 	var compiled *rego.PreparedEvalQuery
 	if ep >= 2 {
 		var cerr error
@@ -138,8 +146,9 @@ func VerifC04EntryNative() {
 	}
 }
 
-// verifUnreadableTexts: data texts from which no complete JSON value can be read - empty, truncated,
-// another encoding, other formats (the YAML/RAML source itself, YAML flow collections, comments).
+// verifUnreadableTexts: data texts that are not a JSON document - empty, truncated, another encoding,
+// other formats (the YAML/RAML source itself, YAML flow collections, comments), and texts that go on
+// after a first JSON value.
 // The decoders run natively on them: which texts are readable is decided by the real code, not by
 // an environment choice.
 var verifUnreadableTexts = []string{
@@ -147,6 +156,9 @@ var verifUnreadableTexts = []string{
 	"#%RAML 1.0\ntitle: API\nversion: 1\n/pets:\n  get:\n", "title: API\nversion: 1\n", "- a\n- b\n", "{'@id': 'x'}", "{a: 1}", "{@id: x}",
 	"# generated\n{}", "// generated\n{}", "\xef\xbb\xbf{}", "\xff\xfe{\x00}\x00", "\xfe\xff\x00{\x00}", "---", "--- {}", "~", "<rdf:RDF/>", "\x00", "@prefix ex: <http://example.org/> .",
 	"NaN", "Infinity", "undefined", "'text'", "[a, b]", "key: [1, 2]\n", "? a\n: b\n", "!!map {}", "&a {}", "%YAML 1.2\n---\n{}\n",
+	// a JSON value followed by more text: sources in other formats that happen to start with one, a second document
+	"\"openapi\": \"3.0.0\"\n\"info\":\n  \"title\": \"API\"\n", "3.0: x\n", "2023-01-01: release notes\n", "true: yes\n", "null\n---\ntitle: API\n",
+	"{\"@graph\": []} {\"@graph\": [{\"@id\": ", "[]\n#%RAML 1.0\ntitle: API\n", "{} garbage", "[]]]]", "{}{}", "{\"@graph\": []}\n{\"@graph\": []}\n", "{},", "{}\x00",
 }
 
 // VerifC04Texts: every text of the family, through every entry point: an error and no report.
@@ -269,6 +281,9 @@ func verifDocFor(scope string, good string) (string, bool) {
 		return verifFlattenWitness(scope), true
 	case v.ReplayBool("flag:" + scope + ".flatten.empty"):
 		return `{"@context": {"ex": "http://example.org/"}}`, true
+	case v.ReplayBool("flag:" + scope + ".flatten.odd"):
+		// well-formed JSON-LD whose source map points at something that is not a node
+		return `{"@graph": [` + good + `, {"@id": "http://x/sm", "@type": "http://a.ml/vocabularies/document-source-maps#SourceMap", "http://a.ml/vocabularies/document-source-maps#lexical": {"@id": "http://x/missing"}}]}`, true
 	}
 	return good, true
 }
@@ -415,14 +430,22 @@ func verifC09CheckUnit(k int) {
 // VerifC09IndexHistory: what the policy sees of a document is a function of that document, whatever
 // was indexed before it: histories of three units that share node ids and (mostly) their root location.
 func VerifC09IndexHistory() {
-	for step := 0; step < 3; step++ {
+	steps := 3
+	if v.Deep() {
+		steps = 5
+	}
+	for step := 0; step < steps; step++ {
 		verifC09CheckUnit(v.Choice("unit", 4))
 	}
 	v.Reach("indexed-3")
 }
 
 func VerifC09IndexHistoryNative() {
-	for step := 0; step < 3; step++ {
+	steps := 3
+	if v.Deep() {
+		steps = 5
+	}
+	for step := 0; step < steps; step++ {
 		name := "unit"
 		if step > 0 {
 			name = "unit#" + string(rune('0'+step))
